@@ -11,12 +11,14 @@
   `assembled_roundtrip` (Lemmas/AssembledWF.lean): every file `assemble` returns without debug symbols is `WF` — sorted blocks
   within the field widths (C01 image theorem, no wrap of the location counter), unique label names and relocation addresses
   (invariants of pass 1), fields that fit — hence round-trips.
-  Not proved: `WF` of files assembled *with* debug symbols (needs strict ascent of the line blocks as a theorem) and of
-  linked files. That gap is what the correspondence check covers: 2,500+ object files from assembling and linking are
+  `assembled_debug_roundtrip` (Lemmas/AssembledWFDebug.lean): the same with debug symbols — the line blocks are strictly
+  ascending because `lookup_line` is injective (C24.rev_lookup_inverts) and within the widths because no block wraps.
+  Not proved: `WF` of linked files. That gap is what the correspondence check covers: 2,500+ object files from assembling and linking are
   serialized and read back by implementation and model, and both must return the original.
 -/
 import Lc3V.Lemmas.BinRoundtrip2
 import Lc3V.Lemmas.AssembledWF
+import Lc3V.Lemmas.AssembledWFDebug
 set_option linter.unusedSimpArgs false
 namespace Lc3V.C17
 open Lc3V Bin
@@ -69,8 +71,21 @@ theorem assembled_roundtrip (stmts : List Stmt) (obj : ObjFile) (h : assemble st
     WF obj ∧ deserialize (serialize obj) = some obj :=
   ⟨assembled_wf_nodebug stmts obj h hstr hlab hfill, roundtrip obj (assembled_wf_nodebug stmts obj h hstr hlab hfill)⟩
 
+/-- **every file assembled with debug symbols round-trips** as well: the line map's blocks are strictly ascending because
+    `lookup_line` is injective (C24), within the field widths because the location counter never wraps.  Additional hypotheses
+    (all guaranteed for parser output): statements on increasing lines, every statement with a line entry at least one word
+    long, the source below 2^64 bytes. -/
+theorem assembled_debug_roundtrip (stmts : List Stmt) (src : List Char) (obj : ObjFile) (h : assemble stmts (some src) = .ok obj)
+    (hstr : ∀ s ∈ stmts, ∀ x, s.nucleus = .directive (.stringz x) → blen x + 1 < 65536)
+    (hlab : LabelsBounded stmts) (hfill : FillLabelsBounded stmts)
+    (hsized : ∀ s ∈ stmts, noLine s.nucleus = false → 1 ≤ s.nucleus.wordLen.toNat)
+    (hl : LinesFrom (SourceInfo.ofText src) (SourceInfo.ofText src).countLines 0 stmts) (hsrc : blen src < 2 ^ 64) :
+    WF obj ∧ deserialize (serialize obj) = some obj :=
+  ⟨assembled_wf_debug stmts src obj h hstr hlab hfill hsized hl hsrc,
+   roundtrip obj (assembled_wf_debug stmts src obj h hstr hlab hfill hsized hl hsrc)⟩
+
 def obligations : List Lean.Name :=
-  [``roundtrip, ``assembled_roundtrip, ``Lc3V.assembled_wf_nodebug, ``wf_empty, ``Lc3V.Bin.deserialize_serialize, ``Lc3V.Bin.fromUtf8_utf8, ``Lc3V.Bin.unle_le, ``Lc3V.Bin.chunks3_words,
+  [``roundtrip, ``assembled_roundtrip, ``assembled_debug_roundtrip, ``Lc3V.assembled_wf_debug, ``Lc3V.assembled_wf_nodebug, ``wf_empty, ``Lc3V.Bin.deserialize_serialize, ``Lc3V.Bin.fromUtf8_utf8, ``Lc3V.Bin.unle_le, ``Lc3V.Bin.chunks3_words,
    ``Lc3V.Bin.chunks2_words, ``Lc3V.Bin.read_block, ``Lc3V.Bin.read_label, ``Lc3V.Bin.read_lineBlock, ``Lc3V.Bin.read_src,
    ``Lc3V.Bin.read_rel, ``Lc3V.Bin.readChunks_items, ``Lc3V.Bin.fromBlocks_self, ``Lc3V.insAll_nil]
 
